@@ -148,8 +148,8 @@ Definition incr (l : list N) : Prop := StronglySorted N.lt l.
 Lemma incr_ext l1 l2 : incr l1 -> incr l2 -> (forall x, In x l1 <-> In x l2) -> l1 = l2.
 Proof.
   revert l2; induction l1 as [|a l1 IH]; intros l2 H1 H2 E.
-  - destruct l2 as [|b l2]; [reflexivity|]. exfalso. apply (proj2 (E b)). left; reflexivity.
-  - destruct l2 as [|b l2]. { exfalso. apply (proj1 (E a)). left; reflexivity. }
+  - destruct l2 as [|b l2]; [reflexivity|]. destruct (proj2 (E b) (or_introl eq_refl)).
+  - destruct l2 as [|b l2]. { destruct (proj1 (E a) (or_introl eq_refl)). }
     apply StronglySorted_inv in H1 as [H1 F1]. apply StronglySorted_inv in H2 as [H2 F2].
     rewrite Forall_forall in F1, F2.
     assert (a = b).
